@@ -163,9 +163,12 @@ def check(ops, title, headers):
     hdr = list(headers) if headers is not None else ['#', '*', '=', '-', '_', '~', '!', '&', '@', '^']
     viol = []
     class_default = list(RSTWriter.heading_level_chars)
-    w, ref, sers = build(ops, title, headers)
-    g0 = graph(w)
-    t1 = w.to_text()
+    try:
+        w, ref, sers = build(ops, title, headers)
+        g0 = graph(w)
+        t1 = w.to_text()
+    except Exception as e:      # the public writer API failing on a well-formed operation sequence
+        return [f"error: {type(e).__name__} raised by the writer API: {str(e)[:100]}"], common.digest(["error", ops]), "", True
     g1 = graph(w)
     t2 = w.to_text()
     t3 = str(w)
@@ -257,7 +260,9 @@ def run(ctx):
     s = ctx.seed
     titles = common.rot(TITLES, s)
     configs = [(titles[0], None, depth), (titles[1], ("=", "-", "~", "^", "+"), depth - 1),
-               (titles[2], None, depth - 2), (titles[3], ("=", "-", "~", "^", "+"), depth - 2)]
+               (titles[2], None, depth - 2), (titles[3], ("=", "-", "~", "^", "+"), depth - 2),
+               # a header list in which characters repeat (levels are positions, not characters)
+               (titles[0], ("=", "=", "-", "=", "~"), depth - 2)]
     ctx.cov["bounds"] = {"max_operations": depth, "max_nesting": maxnest,
                          "alphabet": [list(o) for o in alphabet()],
                          "configs": [{"title": t, "headers": h, "depth": d} for t, h, d in configs]}
